@@ -1,7 +1,7 @@
 SPECIFICATION Spec
 CONSTANT MaxChildEv = 2
 CONSTANT MaxEnter = 3
-CONSTANT Filter = "session"
+CONSTANT Filter = "invokeid"
 INVARIANT InvokeOncePerStableEntry
 INVARIANT NothingAfterCancel
 INVARIANT DoneInvokeOnceAndLast
